@@ -64,3 +64,105 @@ pub fn c15_native_compressed_enumeration() {
     }
     println!("c15_native_compressed_enumeration: {} three-step logs (plus all one- and two-step prefixes) checked", n);
 }
+
+// ------------------------------------------------------------------------------------------------------------------
+// BOUNDED STAND-IN for the end-to-end record: logger in a loop -> recorded steps -> JSON export -> decoded steps.
+use std::collections::BTreeMap;
+
+use better_any::TidAble;
+use serde_json::{json, Value};
+
+use crate::{
+    conditions::{EveryN, LessThanN},
+    lens::ValueOf,
+    logging::Logger,
+    state::common::{Evaluations, Iterations, Progress},
+    Configuration, Problem as _,
+};
+
+#[derive(Clone, serde::Serialize, better_any::Tid)]
+pub struct AbsentState(pub u32);
+impl crate::CustomState<'_> for AbsentState {}
+
+pub struct Dummy;
+impl crate::Problem for Dummy {
+    type Encoding = ();
+    type Objective = crate::SingleObjective;
+    fn name(&self) -> &str { "Dummy" }
+}
+type Decoded = Vec<BTreeMap<String, Value>>;
+
+fn decode_export(export: &Value) -> Decoded {
+    let names: Vec<String> = export["names"].as_array().unwrap().iter().map(|n| n.as_str().unwrap().to_string()).collect();
+    export["entries"].as_array().unwrap().iter().map(|step| {
+        step.as_object().unwrap().iter().map(|(k, v)| (names[k.parse::<usize>().unwrap()].clone(), v.clone())).collect()
+    }).collect()
+}
+fn flatten_log(raw: &Value) -> Decoded {
+    raw.as_array().unwrap().iter().map(|step| {
+        step.as_array().unwrap().iter().map(|e| (e["name"].as_str().unwrap().to_string(), e["value"].clone())).collect()
+    }).collect()
+}
+
+/// one configuration: `p_eval` / `p_prog` are the periods of the two rules (0 = rule absent); `dup` adds a second rule for
+/// Evaluations (same name: the first rule wins); `missing` adds a rule whose source state does not exist (explicit null)
+fn logger_case(n: u32, p_eval: u32, p_prog: u32, dup: bool, missing: bool) {
+    let iterations = std::any::type_name::<Iterations>();
+    let evaluations = std::any::type_name::<Evaluations>();
+    let progress = std::any::type_name::<Progress<ValueOf<Iterations>>>();
+    let absent = std::any::type_name::<AbsentState>();
+    let config = Configuration::<Dummy>::builder()
+        .while_(LessThanN::iterations(n), |b| b.debug(|_, state| *state.borrow_value_mut::<Evaluations>() += 3).do_(Logger::new()))
+        .build();
+    let state = config.optimize_with(&Dummy, |state| {
+        state.insert(Evaluations(0));
+        state.configure_log(|log| {
+            if p_eval > 0 { log.with_auto::<Evaluations>(EveryN::iterations(p_eval)); }
+            if p_prog > 0 { log.with_auto::<Progress<ValueOf<Iterations>>>(EveryN::iterations(p_prog)); }
+            if dup { log.with_auto::<Evaluations>(EveryN::iterations(1)); }
+            if missing { log.with_auto::<AbsentState>(EveryN::iterations(2)); }
+            Ok(())
+        })
+    }).expect("run must succeed");
+    // expected steps, computed independently: one step per logger execution in which at least one trigger fires
+    let mut expected: Decoded = Vec::new();
+    for i in 0..n {
+        let mut step = BTreeMap::new();
+        let fires = |p: u32| p > 0 && i % p == 0;
+        if fires(p_eval) || dup { step.insert(evaluations.to_string(), json!(3 * (i + 1))); }
+        if fires(p_prog) { step.insert(progress.to_string(), json!(f64::from(i) / f64::from(n))); }
+        if missing && i % 2 == 0 { step.insert(absent.to_string(), Value::Null); }
+        if !step.is_empty() { step.insert(iterations.to_string(), json!(i)); expected.push(step); }
+    }
+    let fail = |why: &str, got: &Decoded| -> ! {
+        eprintln!("COUNTEREXAMPLE n={n} p_eval={p_eval} p_prog={p_prog} dup={dup} missing={missing}: {why}\n got      {got:?}\n expected {expected:?}");
+        panic!("experiment record is not exact")
+    };
+    let raw = flatten_log(&serde_json::to_value(&*state.log()).unwrap());
+    if raw != expected { fail("the recorded steps differ from the executions in which a trigger fired", &raw) }
+    // iteration entry first in every step
+    for step in serde_json::to_value(&*state.log()).unwrap().as_array().unwrap() {
+        if step.as_array().unwrap()[0]["name"].as_str().unwrap() != iterations { fail("the iteration count is not the first entry of a step", &raw) }
+    }
+    let path = std::env::temp_dir().join(format!("verif_c15_{}_{}.json", std::process::id(), n * 1000 + p_eval * 100 + p_prog * 10 + dup as u32 * 2 + missing as u32));
+    state.log().to_json(&path).unwrap();
+    let export: Value = serde_json::from_reader(std::fs::File::open(&path).unwrap()).unwrap();
+    let _ = std::fs::remove_file(&path);
+    let decoded = decode_export(&export);
+    if decoded != expected { fail("the JSON export does not decode to the recorded steps", &decoded) }
+}
+
+// @native-harness
+pub fn c15_native_logger_json_roundtrip() {
+    let mut cases = 0u64;
+    for n in [0u32, 1, 5, 6] {
+        for p_eval in 0..=3u32 {
+            for p_prog in 0..=3u32 {
+                for dup in [false, true] {
+                    for missing in [false, true] { logger_case(n, p_eval, p_prog, dup, missing); cases += 1; }
+                }
+            }
+        }
+    }
+    println!("c15_native_logger_json_roundtrip: {} logger configurations checked", cases);
+}
